@@ -12,21 +12,27 @@ impl<A: Actor> Spawner<A> for SmolSpawner {
     where
         F: Future<Output = crate::DynResult<A>> + Send + 'static,
     {
-        let handle = Arc::new(async_lock::Mutex::new(Some(smol::spawn(future))));
+        // A `smol::Task` cancels its future when it is dropped.  The actor must keep running
+        // when its handle (or a join future) is dropped, like on the other runtimes, so the task
+        // is detached right away and hands its result over through a channel.
+        let (tx, rx) = futures::channel::oneshot::channel::<DynResult<A>>();
+        smol::spawn(async move {
+            let _ = tx.send(future.await);
+        })
+        .detach();
         log::trace!("spawning smol task");
-
-        let detach_handle = Arc::clone(&handle);
+        let handle = Arc::new(async_lock::Mutex::new(Some(rx)));
 
         ActorHandle::new(move || -> JoinFuture<A> {
             log::trace!("joining smol task");
             let handle = Arc::clone(&handle);
             Box::pin(async move {
-                let mut handle: Option<smol::Task<DynResult<A>>> = handle.lock().await.take();
+                let mut handle = handle.lock().await.take();
 
                 if let Some(handle) = handle.take() {
                     // TODO: don't eat the error
 
-                    let actor = handle.await.ok();
+                    let actor = handle.await.ok().and_then(Result::ok);
                     log::trace!("smol task completed");
                     actor
                 } else {
@@ -34,13 +40,6 @@ impl<A: Actor> Spawner<A> for SmolSpawner {
                     None
                 }
             })
-        })
-        .with_detach_fn(move || {
-            log::trace!("detaching smol task");
-            let mut handle = detach_handle.lock_blocking().take();
-            if let Some(handle) = handle.take() {
-                handle.detach();
-            }
         })
     }
 
